@@ -4,7 +4,7 @@
 From Coq Require Import Lia Relations Sorted.
 From HpoV Require Import Gen.Consts Model.Base Model.Group Model.Onto Model.Query Model.Dump Model.Script
   Proofs.GroupP Proofs.BaseP Proofs.ClosureP Proofs.AcyclicP Proofs.DistP Proofs.QgoodP Proofs.LinkP Proofs.RecordsP
-  Proofs.SectionP Proofs.RoundTripP Proofs.AnnotP.
+  Proofs.C03W Proofs.SectionP Proofs.RoundTripP Proofs.AnnotP.
 
 (* ---------------- the stages of a script ---------------- *)
 
@@ -282,4 +282,65 @@ Proof.
   intros Hs F Ho Hd. pose proof (run_script_src_ok icf s codes o Hs) as S.
   destruct (run_script_ann_ok icf s codes o Hs) as [Ac A].
   split; [apply (reload_keeps_terms icf' order o o'' F S Hd)|apply (reload_keeps_annotations icf' order o o'' F S Ac A Ho Hd)].
+Qed.
+
+(* ---------------- the direct terms of every record are terms of the ontology ---------------- *)
+
+Definition DK (o : onto) : Prop := forall k g d, In d (direct k o g) -> In d (ar_keys (o_arena o)).
+
+Lemma same_struct_keys a a' : same_struct (ar_terms a) (ar_terms a') -> ar_keys a' = ar_keys a.
+Proof. intros S. apply same_links_keys, same_struct_links, S. Qed.
+
+Lemma direct_other_kind k k' id name tid o o' : b_annotate k id name tid o = Ok o' -> k' <> k -> forall g, direct k' o' g = direct k' o g.
+Proof. intros H Hne g. destruct (annotate_records k id name tid o o' H) as (_ & _ & R). unfold direct. rewrite (R k' Hne). reflexivity. Qed.
+
+Lemma DK_annotate k id name tid o o' : DK o -> b_annotate k id name tid o = Ok o' -> DK o'.
+Proof.
+  intros D H k0 g d Hd. rewrite (same_struct_keys _ _ (annotate_same_struct k id name tid o o' H)).
+  destruct (kind_eq_dec k0 k) as [->|Hne].
+  - destruct (annotate_records k id name tid o o' H) as (Dir & _). apply Dir in Hd as [Hd|[-> ->]]; [apply (D k g d Hd)|].
+    unfold b_annotate in H. destruct (o_get tid o) as [t|] eqn:Eg; [|discriminate].
+    unfold o_get in Eg. apply (get_Some_key _ _ _ Eg).
+  - rewrite (direct_other_kind k k0 id name tid o o' H Hne) in Hd. apply (D k0 g d Hd).
+Qed.
+
+Theorem run_script_direct_in_keys icf s codes o : run_script icf s = Ok (codes, Ok o) ->
+  forall k r d, In r (o_records k o) -> In d (a_hpos r) -> In d (ar_keys (o_arena o)).
+Proof.
+  intros Hs. pose proof Hs as Hs0.
+  destruct s as [[[[ver terms] parents] annots] kindb] eqn:Es. unfold run_script in Hs.
+  apply bind_Ok' in Hs as [[ob cs] [Hb H]].
+  destruct (run_builder_stages _ ob cs Hb) as (o2 & o3 & an & c4 & B2 & P2 & _ & N2 & R2 & Hc & Hr).
+  pose proof (BI_run an o3 ob c4 (BI_after_connect o2 o3 B2 P2 N2 R2 Hc) Hr) as Bb.
+  assert (DK ob) as Db.
+  { unfold run_ops in Hr.
+    refine (foldM_inv _ (fun st : onto * list N => DK (fst st)) _ _ (o3, []) (ob, c4) _ Hr).
+    - intros [s0 cs0] [[[tag id] tid] name] [s' cs'] _ Hstep Ds. cbn [fst snd] in *. unfold run_annot_op in Hstep.
+      destruct (tag <? 3).
+      + cbn [bind] in Hstep. injection Hstep as <- _. intros k g d Hd. rewrite direct_add_record in Hd. rewrite add_record_arena. apply (Ds k g d Hd).
+      + destruct (b_annotate (kind_of tag) id name tid s0) as [s2|e| |] eqn:Ea; cbn [step_keep bind] in Hstep; try discriminate; injection Hstep as <- _.
+        * apply (DK_annotate _ _ _ _ s0 s2 Ds Ea).
+        * exact Ds.
+    - cbn [fst]. intros k g d Hd. unfold direct in Hd.
+      unfold b_connect_all_terms in Hc. destruct (connect_all _ (o_arena o2)) as [a3| | |]; cbn [bind] in Hc; try discriminate. injection Hc as <-.
+      assert (o_records k (set_arena a3 o2) = []) as E by (rewrite <- (R2 k); destruct k; reflexivity). rewrite E in Hd. destruct Hd. }
+  (* finish keeps records and keys *)
+  assert (forall k, o_records k o = o_records k ob) as Ro.
+  { unfold finish in H. destruct (b_calculate_ic icf ob) as [o5| | |] eqn:E5; cbn [bind] in H; try discriminate.
+    destruct (C03W.calculate_ic_spec icf ob o5 E5) as (R5 & _). destruct (kindb =? 0).
+    - injection H as _ <-. intros k. rewrite <- R5. destruct k; reflexivity.
+    - destruct (b_build_with_defaults o5) as [o6| | |] eqn:E6; try discriminate. injection H as _ <-. intros k. rewrite <- R5.
+      unfold b_build_with_defaults, set_default_categories, set_default_modifier in E6.
+      destruct (o_get ROOT_ID_CAT (b_build_minimal o5)); [|discriminate].
+      destruct (o_get PHENOTYPE_ID (b_build_minimal o5)); [|discriminate]. cbn [bind] in E6.
+      match type of E6 with context [o_get ROOT_ID ?x] => destruct (o_get ROOT_ID x) end; [|discriminate].
+      injection E6 as <-. destruct k; reflexivity. }
+  assert (ar_keys (o_arena o) = ar_keys (o_arena ob)) as Ko.
+  { unfold finish in H. destruct (b_calculate_ic icf ob) as [o5| | |] eqn:E5; cbn [bind] in H; try discriminate.
+    pose proof (same_struct_keys _ _ (calculate_ic_same_struct icf ob o5 E5)) as K5. destruct (kindb =? 0).
+    - injection H as _ <-. exact K5.
+    - destruct (b_build_with_defaults o5) as [o6| | |] eqn:E6; try discriminate. injection H as _ <-.
+      rewrite (build_with_defaults_arena o5 o6 E6). exact K5. }
+  intros k r d Hr' Hd. rewrite Ko. rewrite Ro in Hr'. apply (Db k (a_id r) d). unfold direct, an_find.
+  rewrite (find_by_unique a_id _ r (bi_nodup ob Bb k) Hr'). exact Hd.
 Qed.
